@@ -18,6 +18,7 @@ package id
 
 import (
 	"context"
+	"sync"
 
 	json "github.com/bytedance/sonic"
 	"github.com/muyo/sno"
@@ -35,6 +36,12 @@ func GetSno() *Sno {
 type SnoGenerator struct {
 	*sno.Generator
 	tracer tracing.ITracer
+	// mu serialises New: sno's lock-free generator can hand out the same id
+	// twice when goroutines draw concurrently while the time unit changes (one
+	// goroutine takes the next sequence number of the old time unit with the
+	// new timestamp just before another one resets the sequence, which then
+	// counts up to that number again).
+	mu sync.Mutex
 }
 
 func (g *Sno) NewIdGenerator(ctx context.Context, tracer tracing.ITracer) (result IGenerator, err error) {
@@ -81,6 +88,8 @@ type SnoId struct {
 }
 
 func (g *SnoGenerator) New() Id {
+	g.mu.Lock()
+	defer g.mu.Unlock()
 	return &SnoId{ID: g.Generator.New(0)}
 }
 
